@@ -12,6 +12,7 @@ case kinds (all of them are also sent to the Lean model):
   case  - cell references as written vs upper-cased, under a grid / label / echo host (see the section below)
 """
 import itertools
+import json
 import random as _random
 from fractions import Fraction
 
@@ -290,7 +291,10 @@ def formulas(c):
         return ['{%s;%s}' % (','.join(c['r1']), ','.join(c['r2'])), '{%s;%s}' % ('\\'.join(c['r1']), '\\'.join(c['r2'])),
                 'G(%s;%s)' % (','.join(c['r1']), ','.join(c['r2']))]
     if k == 'case':
-        return [node_text(c['shape'], c['refs'], False), node_text(c['shape'], c['refs'], True)]
+        r = _random.Random(c['salt'] * 7919 + len(json.dumps(c['refs'])))
+        gap = lambda: r.choice(['', '', ' ', ' ', '\t', '\n', '  \n '])
+        return [node_text(c['shape'], c['refs'], False), node_text(c['shape'], c['refs'], True),
+                node_text(c['shape'], c['refs'], False, gap)]
     return []
 
 
@@ -497,16 +501,23 @@ def ref_text(ref, upper):
     return ':'.join(corner_text(k, upper) for k in ref)
 
 
-def node_text(node, refs, upper):
+def node_text(node, refs, upper, gap=None):
+    """text of a reference formula; `gap()` gives the white space put at a token boundary (none by default) - on either side
+    of the ':' of a range, of parentheses, commas and operators, never between a function name and its parenthesis"""
+    g = gap or (lambda: '')
     t = node[0]
+
+    def rt(ref):
+        return (g() + ':' + g()).join(corner_text(k, upper) for k in ref)
     if t == 'ref':
-        return ref_text(refs[node[1]], upper)
+        return g() + rt(refs[node[1]]) + g()
     if t == 'sum':
-        return 'SUM(%s)' % ref_text(refs[node[1]], upper)
+        return 'SUM(%s%s%s)' % (g(), rt(refs[node[1]]), g())
     if t == 'g':
-        return 'G(%s)' % ','.join(node_text(x, refs, upper) for x in node[1:])
+        return 'G(%s)' % (g() + ',' + g()).join(node_text(x, refs, upper, gap) for x in node[1:])
     if t in ('add', 'mul'):
-        return '(%s%s%s)' % (node_text(node[1], refs, upper), '+' if t == 'add' else '*', node_text(node[2], refs, upper))
+        return '(%s%s%s%s%s)' % (node_text(node[1], refs, upper, gap), g(), '+' if t == 'add' else '*', g(),
+                                 node_text(node[2], refs, upper, gap))
     raise ValueError(node)
 
 
@@ -657,10 +668,14 @@ def same_record(r1, r2):
 
 
 def case_oracle(c, impl_ans):
-    (fw, rw, _), (fu, ru, _) = impl_ans
+    (fw, rw, lw), (fu, ru, _), (fs, rs, ls) = impl_ans
     if not same_record(rw, ru):
         return ('cell references are not case-insensitive (%s): %r -> %s but %r -> %s'
                 % (HOSTS[c['mode']], fw, short(rw), fu, short(ru)))
+    if not same_record(rw, rs) or lw != ls:
+        return ('white space between the tokens of a reference formula changes the outcome (%s): %r -> %s but %r -> %s%s'
+                % (HOSTS[c['mode']], fw, short(rw), fs, short(rs),
+                   '' if lw == ls else '; the host was asked for %s instead of %s' % (short(ls), short(lw))))
     if c['mode'] in ('grid', 'label'):
         want = {'result': expected_node(c['shape'], c), 'error': None}
         if not same_record(rw, want):
